@@ -121,3 +121,32 @@ Proof. intros H. cbn [request_deserialize]. rewrite H. reflexivity. Qed.
 Lemma spec_status_of_cerr : forall e : cerr,
   status_of_cerr spec_tables e = match e with SerdeMissingField => 0x14 | _ => 0x12 end.
 Proof. destruct e; vm_compute; reflexivity. Qed.
+
+(* growing the buffer never loses a response: a message delivered at capacity n is delivered, unchanged, at every larger capacity;
+   and whatever is delivered at any two capacities is the same message (the capacity decides only WHETHER, never WHAT) *)
+Lemma response_serialize_monotone : forall T e variant payload n n' p p' t b,
+  1 <= n -> n <= n' -> serialising T variant t -> encode e t payload = Some b ->
+  blen b <= n - 1 ->
+  response_serialize T e variant payload n p = Ok (msg b) /\
+  response_serialize T e variant payload n' p' = Ok (msg b).
+Proof.
+  intros T e variant payload n n' p p' t b Hn Hnn Hs He Hfit.
+  rewrite (response_serialize_ser T e variant payload n p t b Hn Hs He).
+  rewrite (response_serialize_ser T e variant payload n' p' t b ltac:(lia) Hs He).
+  destruct (blen b <=? n - 1) eqn:E1; [|apply Z.leb_gt in E1; lia].
+  destruct (blen b <=? n' - 1) eqn:E2; [|apply Z.leb_gt in E2; lia].
+  split; reflexivity.
+Qed.
+
+Lemma response_serialize_threshold : forall T e variant payload t b,
+  serialising T variant t -> encode e t payload = Some b ->
+  forall n p, 1 <= n ->
+    (n < blen b + 1 -> response_serialize T e variant payload n p = Ok [err_code T "Other"]) /\
+    (blen b + 1 <= n -> response_serialize T e variant payload n p = Ok (msg b)).
+Proof.
+  intros T e variant payload t b Hs He n p Hn.
+  rewrite (response_serialize_ser T e variant payload n p t b Hn Hs He).
+  destruct (blen b <=? n - 1) eqn:E1.
+  - apply Z.leb_le in E1. split; intros H; [lia|reflexivity].
+  - apply Z.leb_gt in E1. split; intros H; [reflexivity|lia].
+Qed.
